@@ -131,7 +131,7 @@ def replay_case(args):
 
 
 def real_zone(args):
-    flavour, zone, start, until, interval = args
+    flavour, zone, start, until, interval, full = args
     G = gen_class(flavour)
     g = G(start_year=start, until_year=until, sampling_interval=interval)
     try:
@@ -193,7 +193,7 @@ def real_zone(args):
         if got != want and len(bad_items) < 3:
             bad_items.append({'epoch': it['epoch'], 'item': want, 'library': got})
     return zone, {'items': [[it['epoch'], it['type'], it['y'], it['M'], it['d'], it['h'], it['m'], it['s']] for it in items], 'changes': changes, 'bad_items': bad_items,
-                  'full_items': items if zone in ('America/Los_Angeles', 'Europe/Dublin', 'Asia/Dhaka', 'Australia/Lord_Howe', 'Africa/Casablanca') else None}
+                  'full_items': items if full else None}
 
 
 def main():
@@ -205,7 +205,7 @@ def main():
             jobs = [(spec['flavour'], spec['year'], c) for c in spec['cases']]
             out['results'] = pool.map(replay_case, jobs, chunksize=8)
         else:
-            jobs = [(spec['flavour'], z, spec['start'], spec['until'], spec['interval']) for z in spec['zones']]
+            jobs = [(spec['flavour'], z, spec['start'], spec['until'], spec['interval'], bool(spec.get('full'))) for z in spec['zones']]
             out['zones'] = dict(pool.map(real_zone, jobs, chunksize=4))
     json.dump(out, open(sys.argv[3], 'w'))
     print('ok')
